@@ -39,6 +39,7 @@ var (
 	flagKnown   = flag.String("sim.known", "", "known_findings.jsonl (signatures that are reported as known and not shrunk)")
 	flagNoShr   = flag.Bool("sim.noshrink", false, "do not shrink or stop on violations")
 	flagDump    = flag.String("sim.dumpdir", "", "write full materialised inputs of a replay here (debugging)")
+	flagFreeAt  = flag.Int("sim.freeafter", -1, "C20 deterministic mode: from this scheduler step on nothing is parked any more (resolves a stall: is a goroutine blocked on something outside the simulation released once the goroutines the simulator held go on?)")
 	flagXDir    = flag.String("sim.xdir", "", "scratch directory for the cross-build blob exchange (C11)")
 )
 
@@ -262,6 +263,7 @@ func WorkerMain(t *testing.T) {
 	}
 	simdjson.NewSerializer() // package-level zstd decoder must be created outside any bubble
 	simdjson.SimHook = hookDispatch
+	startStallWatchdog()
 	if *flagReplay != "" {
 		replayMain(t)
 		return
